@@ -84,6 +84,7 @@ template <int D, class TT> std::vector<Coord<D>> leafOfTgt(const TT& t, long N, 
 template <class E, class Exec> void runSetTsm(const TsmConf<E>& c, Result& res, Exec&& exec, bool& nontrivial, bool checkCells = true) {
     constexpr int D = E::Cfg::Dim;
     const long Ns = long(c.src.size()), Nt = long(c.tgt.size());
+    if (Ns > long(vp::PSET_N)) { res.ev("set-probe-skipped-too-many-sources"); return; }   // the per-pair probe has PSET_N source ids
     const typename E::Cfg cfg(c.geo.H, c.geo.width, c.geo.center);
     typename TsmTypes<E>::SetTree tree(cfg, c.src, c.tgt, c.blockSize, c.ogp);
     exec(tree, cfg);
